@@ -265,6 +265,7 @@ impl Node {
                     rel,
                     abs,
                     via_action: false,
+                    salt: m.salt,
                     seq_before: 0,
                 });
                 let _ = seq_before;
